@@ -798,6 +798,20 @@ func (t *tester) misc(which int) {
 			t.exec(r, "any", "cross-version "+r.Method+" "+r.Path)
 			t.sideEffectsIfRefused()
 		}
+		// a v1-shaped collection created through v2 with a smaller search size than
+		// v1's own default: every limit of v1's documented range must still be served
+		cl.Do(t.w.h, cl.JSON("POST", "/v2/collections", "carol", "basic", map[string]any{"id": "v1shape", "indexSchema": map[string]any{"vector": map[string]any{"type": "vectorVamana", "vectorVamana": map[string]any{"vectorSize": 2, "distanceMetric": "euclidean", "searchSize": 25, "degreeBound": 32, "alpha": 1.2}}}}))
+		var v1pts []any
+		for i := 0; i < 40; i++ {
+			v1pts = append(v1pts, map[string]any{"vector": []any{float64(i % 7), float64(i / 7)}})
+		}
+		t.exec(cl.JSON("POST", "/v1/collections/v1shape/points", "carol", "basic", map[string]any{"points": v1pts}), "any", "v1 insert into a v1-shaped v2 collection")
+		t.before = t.w.digest()
+		for _, limit := range []int{1, 10, 24, 25, 26, 50, 75} {
+			t.exec(cl.JSON("POST", "/v1/collections/v1shape/points/search", "carol", "basic", map[string]any{"vector": []any{1.0, 1.0}, "limit": limit}), "valid", fmt.Sprintf("v1 search limit %d on a v1-shaped v2 collection with searchSize 25", limit))
+		}
+		t.exec(cl.JSON("POST", "/v1/collections/v1shape/points/search", "carol", "basic", map[string]any{"vector": []any{1.0, 1.0}, "limit": 76}), "invalid", "v1 search limit 76")
+		t.sideEffectsIfRefused()
 	case 2: // quota and size limits
 		var many []any
 		for i := 0; i < 10001; i++ {
@@ -909,7 +923,7 @@ func (t *tester) misc(which int) {
 
 func master(cfg *harness.Config, rep *harness.Report) {
 	rep.Level = "exploration"
-	rep.Rule = "(a) every byte string of length <= L over a structural alphabet (JSON: { } [ ] \" : , 1 - e . a \\\\ space; MessagePack: fixmap/fixarray/str/nil/bool/float/int/array16/map16 lead bytes) as the body of each of the 10 body-taking routes of both API versions; (b) for 11 valid base requests (v2 create / insert / update / delete / hybrid search with nested filters, select, sort, paging / binary flat search; v1 create / insert / update / delete / search) every node of the request tree deleted or replaced by each of 32 values (null, booleans, 0, ±1, 1e400, 2^63, empty / reserved / dotted / 3000-byte strings, empty and nested arrays and objects, boundary numbers 24/76/101/4096/4097/10001, malformed and valid uuids, ...), in JSON and MessagePack, plus duplicate keys; (c) header / content-type variants, body-less and unknown routes, every v1 route on a v2 collection and vice versa, quota and size limits, vector lengths 1/4096/4097, index entries with a superfluous parameter block of another type (the dimension in force is the one of the entry's type), nesting depth 10..10^6. Oracle: never a 5xx or a dead worker; requests that certainly violate the schema must get 4xx; after any 4xx the digest of all collections and points is unchanged; unmodified base requests succeed. distinct_nontrivial = distinct (route, status class, expectation) tuples"
+	rep.Rule = "(a) every byte string of length <= L over a structural alphabet (JSON: { } [ ] \" : , 1 - e . a \\\\ space; MessagePack: fixmap/fixarray/str/nil/bool/float/int/array16/map16 lead bytes) as the body of each of the 10 body-taking routes of both API versions; (b) for 11 valid base requests (v2 create / insert / update / delete / hybrid search with nested filters, select, sort, paging / binary flat search; v1 create / insert / update / delete / search) every node of the request tree deleted or replaced by each of 32 values (null, booleans, 0, ±1, 1e400, 2^63, empty / reserved / dotted / 3000-byte strings, empty and nested arrays and objects, boundary numbers 24/76/101/4096/4097/10001, malformed and valid uuids, ...), in JSON and MessagePack, plus duplicate keys; (c) header / content-type variants, body-less and unknown routes, every v1 route on a v2 collection and vice versa, v1 searches with every boundary limit on a v1-shaped collection created through v2 with searchSize 25, quota and size limits, vector lengths 1/4096/4097, index entries with a superfluous parameter block of another type (the dimension in force is the one of the entry's type), nesting depth 10..10^6. Oracle: never a 5xx or a dead worker; requests that certainly violate the schema must get 4xx; after any 4xx the digest of all collections and points is unchanged; unmodified base requests succeed. distinct_nontrivial = distinct (route, status class, expectation) tuples"
 	rep.Assumptions = []string{"the grammar is bounded: L<=4 (quick) / 5 (thorough) for JSON and for MessagePack; single mutations only", "one node, two users", "body sizes stay below 12 MB (no request-size limit exists in the server: memory exhaustion by huge bodies is not explored)"}
 	p := pool.New(pool.Options{CPUsPerWorker: 2, JobTimeout: 300 * time.Second, MemLimitKB: 8 << 20})
 	var jobs []job
